@@ -12,15 +12,16 @@ ROUND2_CAUGHT = {"C10_4", "C09_4", "C02_5", "C02_6", "C01_4", "C07_4", "C03_4", 
 ROUND3_CAUGHT = {"C02_9", "C10_7", "C09_7", "C09_9", "C04_7", "C04_9", "C08_8", "C08_9", "C03_7", "C03_8", "C03_9", "C05_7", "C05_8", "C05_9",
                  "C11_7", "C11_8", "C11_9", "C12_7", "C12_8", "C12_9", "C13_7", "C13_8", "C13_9", "C14_9", "C15_8", "C16_7", "C16_8", "C17_7", "C17_9",
                  "C18_7", "C18_8", "C19_8", "C20_7", "C20_8", "C20_9"}
-ROUND2_CAUGHT |= ROUND3_CAUGHT
+ROUND4_CAUGHT = {"C10_11", "C09_11", "C08_10", "C07_11", "C01_11", "C03_12", "C05_10", "C05_12"}
+ROUND2_CAUGHT |= ROUND3_CAUGHT | ROUND4_CAUGHT
 for _p in range(1, 21):
-    for _i in (4, 5, 6, 7, 8, 9):
+    for _i in (4, 5, 6, 7, 8, 9, 10, 11, 12):
         _n = f"C{_p:02d}_{_i}"
         if _n not in ROUND2_CAUGHT:
             FIRST.setdefault(_n, "missed")
 FIRST["C16_5"] = "missed (then a harness crash)"
 rows = []
-for d in sorted(glob.glob("/verif/seeded/*/")):
+for d in sorted(glob.glob("/verif/seeded/*/"), key=lambda d: (d.split("/")[-2].split("_")[0], int(d.split("/")[-2].split("_")[1]))):
     name = os.path.basename(d.rstrip("/"))
     try:
         m = json.load(open(d + "meta.json"))
@@ -47,6 +48,7 @@ for r in rows:
     print(f"| {r[0]} | {r[1]} | {r[3]} | {r[2]} | `{r[4]}` |")
 r1 = [r for r in rows if int(r[0].split("_")[1]) <= 3]
 r2 = [r for r in rows if 3 < int(r[0].split("_")[1]) <= 6]
-r3 = [r for r in rows if int(r[0].split("_")[1]) > 6]
-print(f"\nFirst round: {sum(1 for r in r1 if r[3] == 'caught')} of {len(r1)} caught at the first run; second round: {sum(1 for r in r2 if r[3] == 'caught')} of {len(r2)}; third round: {sum(1 for r in r3 if r[3] == 'caught')} of {len(r3)}. "
+r3 = [r for r in rows if 6 < int(r[0].split("_")[1]) <= 9]
+r4 = [r for r in rows if int(r[0].split("_")[1]) > 9]
+print(f"\nFirst round: {sum(1 for r in r1 if r[3] == 'caught')} of {len(r1)} caught at the first run; second round: {sum(1 for r in r2 if r[3] == 'caught')} of {len(r2)}; third round: {sum(1 for r in r3 if r[3] == 'caught')} of {len(r3)}; fourth round: {sum(1 for r in r4 if r[3] == 'caught')} of {len(r4)}. "
       f"After strengthening {sum(1 for r in rows if r[2] == 'caught')} of {len(rows)} seeded changes are caught by the quick tier of the property's check.")
